@@ -136,8 +136,11 @@ class Scanner:
         return self.scan_grammar_rule
 
     def scan_grammar_doc_inner(self) -> StateFn | None:
+        # `grammar_doc = ${ "//!" ~ space? ~ inner_doc }`: the optional blank
+        # belongs to the marker, the doc text is `inner_doc`.
         if self.peek() in (" ", "\t"):
             self.next()
+            self.start = self.pos
 
         self.emit(TokenKind.COMMENT_TEXT, self.scan_until(RE_NEWLINE))
 
@@ -188,8 +191,10 @@ class Scanner:
         return self.scan_grammar_rule
 
     def scan_rule_doc_inner(self) -> StateFn | None:
+        # `line_doc = ${ "///" ~ space? ~ inner_doc }`
         if self.peek() in (" ", "\t"):
             self.next()
+            self.start = self.pos
 
         self.emit(TokenKind.COMMENT_TEXT, self.scan_until(RE_NEWLINE))
 
